@@ -334,12 +334,12 @@ def scale_log2(c, kind, ndims):
 
 
 def parse_sum(ans):
-    """'l0 l1 ... = red ser den' -> (locals, reduced, serial, den)"""
+    """'l0 l1 ... = red ser den repl' -> (locals, reduced, serial, den, replication)"""
     if ans.startswith('?'):
-        raise core.BrokenCheck('model refused a request: ' + ans)
+        raise core.BrokenCheck('model refused a request (guard dg_wf / dg_link_ok of the theorems): ' + ans)
     a, b = ans.split(' = ')
-    red, ser, den = (int(x) for x in b.split())
-    return [int(x) for x in a.split()], red, ser, den
+    red, ser, den, rep = (int(x) for x in b.split())
+    return [int(x) for x in a.split()], red, ser, den, rep
 
 
 def pz(s):
@@ -448,7 +448,7 @@ def compare(chk, c, res, answers, tags, fields):
         nd = len(s['N'])
         re_, im_ = (fre, fim) if s['fld'] == 'f' else (pre, pim)
         for kd in (KINDS if s['fld'] == 'f' else ('l2',)):
-            loc, red, ser, den = parse_sum(M[('sum', nm, kd)])
+            loc, red, ser, den, rep = parse_sum(M[('sum', nm, kd)])
             tot_or = oracle_sum(c, kd, re_, im_)
             impl_loc = [fr(ranks[rk]['norms'][nm][kd]) if s['fld'] == 'f' else fr(ranks[rk]['phi'][nm[4:]]) for rk in range(nranks)]
             site = {'l2': 'norms.l2', 'l1': 'norms.l1', 'n': 'norms.nParticles', 'ke': 'energy.KineticEnergy'}[kd]
@@ -464,7 +464,7 @@ def compare(chk, c, res, answers, tags, fields):
                     v('model:local-sum', 'model local value %d differs from the oracle %d (%s %s rank %d); implementation '
                       'agrees with the oracle' % (loc[rk], or_loc, site, nm, rk), True)
                     break
-            if red != s['R'] * tot_or or ser != tot_or:
+            if red != s['R'] * tot_or or ser != tot_or or rep != s['R'] or red != rep * ser:
                 v('model:reduced', 'model reduced %d / serial %d, oracle %d x replication %d (%s %s)' % (red, ser, tot_or, s['R'], site, nm), True)
             if sum(impl_loc) != s['R'] * real_value(c, kd, nd, tot_or):
                 v('%s:sum-over-ranks' % site, '%s on layout %s: sum over all %d ranks %s, serial quadrature %s x replication %d'
@@ -651,25 +651,54 @@ def coq_term(c, kd, s, re_, im_):
     return 'let c := %s in (dg_all %s c, dg_reduced %s c)' % (cfg, k, k)
 
 
+def accumulate(t0, dt, n):
+    """the times fullSimulation.py passes to collect(): t += dt in floating point"""
+    ts, t = [], t0
+    for _ in range(n):
+        ts.append(t)
+        t += dt
+    return ts
+
+
 def check_float_time(chk):
-    """collect() is documented with float t, dt; on integers the model applies, on floats t // dt is a float"""
+    """collect() with float t, dt.  The k-th collect of a run starting at t = 0 belongs to step k and must go to
+    slot k mod saveStep.  The code computes floor of the exact quotient of the two doubles (c17_slot_q_of_step):
+    right whenever k*dt <= t < (k+1)*dt holds for the doubles (integers, dyadic dt), wrong otherwise."""
     n = 0
-    for cfg in ({'saveStep': 3, 'dt': 2, 'ts': [0, 2, 4, 6]}, {'saveStep': 3, 'dt': 1.0, 'ts': [0.0, 1.0, 2.0]},
-                {'saveStep': 2, 'dt': 0.5, 'ts': [0.5, 1.0]}):
+    cfgs = [{'saveStep': 3, 'dt': 2, 'ts': [0, 2, 4, 6]}, {'saveStep': 3, 'dt': 1.0, 'ts': [0.0, 1.0, 2.0]},
+            {'saveStep': 2, 'dt': 0.5, 'ts': accumulate(0.0, 0.5, 3)}, {'saveStep': 4, 'dt': 0.25, 'ts': accumulate(0.0, 0.25, 6)},
+            {'saveStep': 6, 'dt': 0.1, 'ts': accumulate(0.0, 0.1, 6)}, {'saveStep': 3, 'dt': 0.1, 'ts': accumulate(0.0, 0.1, 6)}]
+    for cfg in cfgs:
         r = implrun.run_cases('props.c17', 'float_time_case', [cfg], tmo=90.0)[0]
         n += 1
         isf = any(isinstance(x, float) for x in [cfg['dt']] + cfg['ts'])
-        chk.count(('float-time', json.dumps(cfg)), stratum='collect-time/' + ('float' if isf else 'int'), sample=cfg)
+        dtq = Fraction(cfg['dt'])
+        hyp = all(k * dtq <= Fraction(t) < (k + 1) * dtq for k, t in enumerate(cfg['ts']))
+        chk.count(('float-time', json.dumps(cfg)), stratum='collect-time/' + ('float' if isf else 'int') + ('/exact-steps' if hyp else '/rounded-steps'),
+                  sample=cfg)
         want = [0.0] * cfg['saveStep']
-        for t in cfg['ts']:
-            want[int(t // cfg['dt']) % cfg['saveStep']] = float(t)
+        qmodel = [0.0] * cfg['saveStep']
+        for k, t in enumerate(cfg['ts']):
+            want[k % cfg['saveStep']] = float(t)
+            qmodel[(Fraction(t) / dtq).__floor__() % cfg['saveStep']] = float(t)
+        if hyp and qmodel != want:
+            raise core.BrokenCheck('c17_slot_q_of_step contradicted by %r' % (cfg,))
         if not isinstance(r, dict):
             r = {'outcome': 'exception', 'detail': repr(r)}
         if r.get('outcome') != 'ok' or r.get('times') != want:
-            key = 'collector.collect:float-time' if isf else 'collector.collect:slot'
-            chk.violation(key, 'DiagnosticCollector.collect with %s t/dt (saveStep %d, dt %r, times %r): %s; expected the times '
-                          'in slots %r' % ('float' if isf else 'int', cfg['saveStep'], cfg['dt'], cfg['ts'],
-                                           (r.get('detail') or r.get('times')), want),
+            if not isf:
+                key = 'collector.collect:slot'
+            elif r.get('outcome') != 'ok':
+                key = 'collector.collect:float-time'
+            elif not hyp and r.get('times') == qmodel:
+                key = 'collector.collect:float-floor-division'
+            else:
+                key = 'collector.collect:slot'
+            chk.violation(key, 'DiagnosticCollector.collect with %s t/dt (saveStep %d, dt %r, times of steps 0.. %r): slots hold %s; '
+                          'step k belongs to slot k mod saveStep: %r%s' % ('float' if isf else 'int', cfg['saveStep'], cfg['dt'], cfg['ts'],
+                                                                        (r.get('detail') or r.get('times')), want,
+                                                                        '' if hyp else ' (t // dt on the doubles is not the step number: '
+                                                                        'k*dt <= t < (k+1)*dt fails in exact arithmetic)'),
                           {'kind': 'float-time', 'case': cfg, 'observed': r})
     return n
 
@@ -743,10 +772,10 @@ def run():
         extra={'model_requests': nlines, 'coq_vm_compute_crosschecked': len(terms), 'float_time_cases': nft,
                'process_grids': [list(g) for g in GRIDS]},
         uncovered=['float rounding / re-association of the real MPI reduction (model and theorems are in exact arithmetic)',
-                   'collect() with float t, dt: t // dt is a float and is outside the Z model of the slot (tested directly, see violations / known findings)',
-                   'the link between the executable dg_local and the abstract block sums of the theorems (slices of weight lists, ravel of the '
-                   'flat field) is exercised by the differential tie and the direct oracle, not proved',
-                   'dims orders other than adjacent transpositions: c17_axis_order_irrelevant is proved for one adjacent exchange at a time',
+                   'collect() with float t, dt: modelled over exact rationals (c17_slot_q_of_step needs k*dt <= t < (k+1)*dt for the doubles); '
+                   'that Python\'s float // is the floor of the exact quotient is assumed (checked on the generated cases)',
+                   'the pointwise model of _factor1 (orientation of the outer product written through .flat) and the transcription of the '
+                   'classes into Diagnostics.v are exercised by the differential tie and the oracle, not proved about the Python text',
                    'sqrt of the reduced l2 values (compared as the same IEEE operation)'])
 
 
@@ -760,8 +789,8 @@ def replay(path):
         r = implrun.run_cases('props.c17', 'float_time_case', [rp['case']], tmo=90.0)[0]
         print('case', rp['case'], '->', r)
         want = [0.0] * rp['case']['saveStep']
-        for t in rp['case']['ts']:
-            want[int(t // rp['case']['dt']) % rp['case']['saveStep']] = float(t)
+        for k, t in enumerate(rp['case']['ts']):
+            want[k % rp['case']['saveStep']] = float(t)
         return 0 if (isinstance(r, dict) and r.get('times') == want) else 1
     c = rp['case']
     nbad, _, _, _, _ = evaluate(chk, [c], record=False)
